@@ -72,6 +72,11 @@ def spend_cases(draw):
         if n == 'WITNESS':
             flags &= ~(F['CLEANSTACK'] | F['TAPROOT'])
         fclass = 'activation-removed'
+    if c['meta'].get('flag_hint') and draw(st.booleans()):
+        # the script was built around one flag: half of these cases run with that flag removed
+        flags &= ~F[c['meta']['flag_hint']]
+        if fclass == 'standard':
+            fclass = 'policy-removed'
     if not consistent(flags):
         flags = STD
         fclass = 'standard'
